@@ -15,6 +15,7 @@ import (
 	"runtime"
 	"sync"
 	"sync/atomic"
+	"syscall"
 	"time"
 
 	nrinet "github.com/containerd/nri/pkg/net"
@@ -281,6 +282,7 @@ type pairOpts struct {
 	qlen     [2]int  // read queue length per mux
 	omitQLen [2]bool // do not pass WithReadQueueLength where the value is the package default (256)
 	blocked  [2]bool // WithBlockedRead; the caller calls Unblock
+	fdTrunk  [2]bool // the trunk of that end is made by nrinet.NewFdConn from a descriptor, as a launched plugin does
 	ids      []uint32
 	wrap     func(side int, c net.Conn) net.Conn
 }
@@ -305,11 +307,29 @@ func connectPairOpts(o pairOpts) *muxPair {
 		panic(fmt.Sprintf("harness: socketpair: %v", err))
 	}
 	p := &muxPair{}
-	if p.raw[0], err = sp.LocalConn(); err != nil {
-		panic(fmt.Sprintf("harness: socketpair conn: %v", err))
-	}
-	if p.raw[1], err = sp.PeerConn(); err != nil {
-		panic(fmt.Sprintf("harness: socketpair conn: %v", err))
+	for sd := 0; sd < 2; sd++ {
+		file := sp.LocalFile()
+		if sd == 1 {
+			file = sp.PeerFile()
+		}
+		if o.fdTrunk[sd] {
+			// what a launched plugin does with the descriptor it inherits: the descriptor passes
+			// into NewFdConn's ownership; the socket pair's own file is closed here
+			fd, derr := syscall.Dup(int(file.Fd()))
+			if derr != nil {
+				panic(fmt.Sprintf("harness: dup: %v", derr))
+			}
+			syscall.CloseOnExec(fd)
+			p.raw[sd], err = nrinet.NewFdConn(fd)
+			file.Close()
+		} else if sd == 0 {
+			p.raw[sd], err = sp.LocalConn()
+		} else {
+			p.raw[sd], err = sp.PeerConn()
+		}
+		if err != nil {
+			panic(fmt.Sprintf("harness: socketpair conn: %v", err))
+		}
 	}
 	for s := 0; s < 2; s++ {
 		p.trunk[s] = p.raw[s]
